@@ -84,6 +84,46 @@ def run_tlc(job):
     return job
 
 
+def check_trace(doc, workdir):
+    """Re-validates a stored counterexample against the spec in the working tree: a tiny TLA+ module walks
+    the recorded states and requires every step to satisfy the spec's own Next; TLC (BFS) then reports the
+    invariant violation iff the recorded behaviour is still a behaviour of the spec."""
+    os.makedirs(workdir, exist_ok=True)
+    src = os.path.join(FM, doc["path"])
+    mod = os.path.basename(src)[:-4]
+    shutil.copyfile(src, os.path.join(workdir, mod + ".tla"))
+    recs = []
+    for st in doc["states"]:
+        fields = {}
+        cur = None
+        for line in st["tla"].splitlines():
+            m = re.match(r"^/\\ (\w+) = (.*)$", line)
+            if m:
+                cur = m.group(1)
+                fields[cur] = m.group(2)
+            elif cur:
+                fields[cur] += "\n" + line
+        recs.append("[" + ", ".join("%s |-> (%s)" % (k, v) for k, v in fields.items()) + "]")
+    vars_ = list(re.findall(r"^/\\ (\w+) =", doc["states"][0]["tla"], re.M))
+    tm = "---- MODULE TraceCheck ----\nEXTENDS %s, Sequences, TLC\nVARIABLE tidx\nTrace == <<\n%s\n>>\n" % (mod, ",\n".join(recs))
+    tm += "TInit == tidx = 1 /\\ " + " /\\ ".join("%s = Trace[1].%s" % (v, v) for v in vars_) + " /\\ Init\n"
+    tm += "TNext == tidx < Len(Trace) /\\ tidx' = tidx + 1 /\\ " + " /\\ ".join("%s' = Trace[tidx + 1].%s" % (v, v) for v in vars_) + " /\\ Next\n====\n"
+    open(os.path.join(workdir, "TraceCheck.tla"), "w").write(tm)
+    with open(os.path.join(workdir, "TraceCheck.cfg"), "w") as f:
+        f.write("INIT TInit\nNEXT TNext\nCONSTANTS\n")
+        for k, v in doc["consts"].items():
+            f.write("  %s = %s\n" % (k, v))
+        f.write("INVARIANTS %s\n" % doc["invariant"])
+    cmd = ["java", "-XX:+UseParallelGC", "-Xmx1g", "-cp", "/opt/veriftools/tla/tla2tools.jar:/opt/veriftools/tla/CommunityModules-deps.jar", "tlc2.TLC",
+           "-deadlock", "-workers", "1", "-metadir", os.path.join(workdir, "states"), "-config", "TraceCheck.cfg", "TraceCheck.tla"]
+    p = subprocess.run(cmd, cwd=workdir, stdout=subprocess.PIPE, stderr=subprocess.STDOUT, text=True, timeout=300)
+    if "Invariant %s is violated" % doc["invariant"] in p.stdout:
+        return "violated", p.stdout
+    if "No error has been found" in p.stdout or "Model checking completed" in p.stdout:
+        return "ok", p.stdout
+    return "error", p.stdout
+
+
 def main(prop, spec, argv, seed, chk):
     tier = argv[0]
     t0 = time.time()
@@ -95,7 +135,7 @@ def main(prop, spec, argv, seed, chk):
         jobs = []
         if tier == "--replay":
             r = json.load(open(argv[1]))
-            j = dict(r["job"])
+            j = dict(r.get("job") or {"model": "x", "path": "x", "invs": [], "constraint": "x", "consts": {"MaxView": "1"}, "assign": "x", "num": 1, "depth": 1, "seed": 1, "workers": 1, "timeout": 10})
             j["dir"] = os.path.join(base, "replay")
             jobs = [j]
         else:
@@ -114,6 +154,22 @@ def main(prop, spec, argv, seed, chk):
                             jobs.append({"model": key, "path": path, "invs": invs, "constraint": constraint, "consts": consts, "assign": aname, "dump": True,
                                          "num": par["dumpnum"], "depth": par["depth"], "seed": s + 1, "workers": 1, "timeout": par["timeout"],
                                          "dir": os.path.join(base, "%s-mv%d-%s-dump" % (key, mv, aname))})
+        # stored counterexamples (replays/C20/*.json) are re-validated against the working tree first
+        trace_results = []
+        if tier != "--replay":
+            for f in sorted(glob.glob(os.path.join(ROOT, "replays", prop, "*.json"))):
+                doc = json.load(open(f))
+                verdict, tout = check_trace(doc, os.path.join(base, "trace-" + os.path.basename(f)[:-5]))
+                kind = "".join(ch for ch in doc["assign"] if not ch.isdigit())
+                trace_results.append((f, "%s:%s:%s" % (doc["model"], doc["invariant"], kind), verdict, tout))
+        elif "states" in json.load(open(argv[1])):
+            doc = json.load(open(argv[1]))
+            verdict, tout = check_trace(doc, os.path.join(base, "trace-replay"))
+            print(tout[-5000:])
+            if verdict == "violated":
+                print("VIOLATION property=%s replay=%s" % (prop, os.path.abspath(argv[1])))
+                return 1
+            return 0 if verdict == "ok" else 2
         with ThreadPoolExecutor(max_workers=(1 if tier == "--replay" else spec[tier]["parallel"])) as ex:
             res = list(ex.map(run_tlc, jobs))
         viols, errors = [], []
@@ -142,6 +198,15 @@ def main(prop, spec, argv, seed, chk):
                 print("VIOLATION property=%s replay=%s" % (prop, os.path.abspath(argv[1])))
                 return 1
             return 2 if errors else 0
+        for (f, key, verdict, tout) in trace_results:
+            if verdict == "violated":
+                if key in known:
+                    known_hits[key] = known_hits.get(key, 0) + 1
+                else:
+                    print("violation detail: [%s] stored counterexample %s is (again) a behaviour of the spec and violates the invariant" % (key, os.path.relpath(f, ROOT)))
+                    viols.append(f)
+            elif verdict == "error":
+                errors.append("trace check %s: %s" % (os.path.basename(f), tout[-300:].replace("\n", " | ")))
         for key in sorted(known_hits):
             print(known[key]["line"])
         traces = sum(j["traces"] for j in res)
